@@ -6,7 +6,7 @@ API
 ---
 job(wasm, calls=(), imports=(), globals=(), memory=None, validate_only=False) -> dict
     wasm: bytes.  calls: [(export_name, [(vt, v), ...], ret_vt|None)] or with a 4th element snap=True to snapshot
-    memory/globals after that call.  imports: wasmgen.import_spec(m).  globals: [(export name, vt)].  memory: export
+    memory/globals after that call and a 5th element pre=<export name of a ()->() function called right before>.  imports: wasmgen.import_spec(m).  globals: [(export name, vt)].  memory: export
     name of the memory (or None).  Values: (vt, v) with v a signed int for i32/i64 and the IEEE *bit pattern* for f32/f64.
 job_for(m, wasm=None, calls=(), ...) -> job for a wasmgen.Module (imports/globals/memory filled from the AST).
 run(jobs, batch=400) -> [Result]      (order preserved; node is started once per batch)
@@ -40,6 +40,8 @@ def job(wasm, calls=(), imports=(), globals=(), memory=None, validate_only=False
         d = {"f": name, "args": [[t, str(v)] for t, v in args], "ret": ret}
         if len(c) > 3 and c[3]:
             d["snap"] = True
+        if len(c) > 4 and c[4]:
+            d["pre"] = c[4]
         cs.append(d)
     return {"wasm": base64.b64encode(wasm).decode(), "calls": cs, "imports": list(imports),
             "globals": [[n, t] for n, t in globals], "memory": memory, "validate_only": bool(validate_only)}
